@@ -7,7 +7,7 @@ RULE = ('(A) every day 1970-01-01..9999-12-31 x seconds-of-day {0, 43201, 86399,
         '{hh:00:00, hh:59:59, one day-dependent value per hour, all 24 hours} (thorough), plus every second of 3 (quick) / 16 '
         '(thorough) boundary days: FormatRfc1123(t) must be the IMF-fixdate of t per an independent calendar and '
         'ParseRfc1123 of it must return t; (B) 53 boundary dates rendered as IMF-fixdate, RFC 850 and asctime, each with '
-        'every 1-token edit (delete, replace by / insert one of 104 tokens, swap neighbours) and, thorough, every 2-position '
+        'every 1-token edit (delete, replace by / insert one of 102 tokens, swap neighbours) and, thorough, every 2-position '
         'replace/delete edit for 4 dates x 3 forms: whenever Squid accepts a string that a strict RFC 9110 recogniser says '
         'denotes a time, the returned time must be that time.  Cases alternate between TZ=UTC and a DST zone. '
         'non-trivial = each round trip + each distinct (per base string) parser input that is in one of the three forms or '
